@@ -764,6 +764,34 @@ def rule_pre(env, shared):
                        "call of the unsafe function %s has no precondition rule in the checker (fail closed): add a rule after "
                        "reading its safety contract" % ck))
     out.extend(res.values())
+    # writes through raw pointers (`*p = v` with p: *mut T) are not calls: enumerate them as well
+    for b in F.non_test_bodies():
+        ctxb = env.ctx(b, F.impl_self_adt(b), None)
+        for bi, blk in enumerate(b.blocks):
+            if blk["cleanup"]:
+                continue
+            for st in blk["stmts"]:
+                if st["k"] != "assign":
+                    continue
+                pl = st["place"]
+                if not pl["p"] or pl["p"][0]["k"] != "deref":
+                    continue
+                lty = b.locals[pl["l"]]["ty"]
+                if lty.get("k") != "ptr":
+                    continue
+                key = "PRE|%s|raw-write" % env.fname(b)
+                ptr = ev.local(ctxb, pl["l"])
+                role, adt = R.classify(ptr)
+                if role in ("store", "cell") or adt is not None:
+                    out.append(Ob("PRE", key, "viol", b.file_line(st["loc"]),
+                                  "%s writes through a raw pointer into the storage of %s (%s): no rule justifies a write to "
+                                  "shared storage" % (env.fname(b), env.sname(adt), fmt(ptr)[:80])))
+                elif "MaybeUninit" in fmt(ptr) or ptr[0] == "ref":
+                    out.append(Ob("PRE", key, "ok", b.file_line(st["loc"]), "write through a raw pointer to a local"))
+                else:
+                    out.append(Ob("PRE", key, "viol", b.file_line(st["loc"]),
+                                  "%s writes through a raw pointer of unknown origin (%s): fail closed" % (
+                                      env.fname(b), fmt(ptr)[:80])))
     # debug_assert! conditions
     for b in F.non_test_bodies():
         for bi, blk in enumerate(b.blocks):
